@@ -249,6 +249,11 @@ def run_all(res, pid, thorough=False, collect=None):
             except Exception as exc:
                 res.violate("slow-save/harness", f"{v}: {type(exc).__name__}: {exc}", case, kind="harness", found_input=False)
                 continue
+            if "setup" in o:
+                # the slow save never got to this pause point (e.g. the code no longer makes that call): nothing can
+                # be concluded from this variant - counted, not reported
+                res.count("slow-save:pause-point-not-reached")
+                continue
             if collect is not None:
                 collect.append((v, o))
             js = judge(o, "C14" if pid == "C12" else pid)
